@@ -23,8 +23,13 @@ Aud   == {"none", "me", "other", "me_me", "me_other", "other_other", "meAndOther
 Recip == {"url", "entityid", "otherBinding", "foreign"}
 Bind  == {"post", "redirect"}
 
+\* endpoint: the SP publishes an assertion-consumer endpoint for the arrival binding, or only for the other one
 Scn == [irt : Irt, sirt : Sirt, dest : Dest, aud : Aud, recip : Recip, allow : BOOLEAN,
-        conv : BOOLEAN, regex : BOOLEAN, binding : Bind, enc : BOOLEAN]
+        conv : BOOLEAN, regex : BOOLEAN, binding : Bind, enc : BOOLEAN, endpoint : {"configured", "otherBindingOnly"}]
+\* without an endpoint for the arrival binding only the addressing dimensions are varied
+WellFormed(s) == s.endpoint = "otherBindingOnly" =>
+                    /\ s.dest \in {"otherBinding", "patternOnly", "foreign", "none"} /\ s.recip \in {"otherBinding", "entityid", "foreign"}
+                    /\ s.aud = "me" /\ ~s.enc /\ s.irt = "id1" /\ s.sirt = "id1"
 
 \* audience restrictions as a sequence of sets of audiences
 Restr(a) == CASE a = "none" -> <<>>
@@ -38,7 +43,7 @@ Restr(a) == CASE a = "none" -> <<>>
 VARIABLES scn, pc, cameFrom, verdict
 vars == <<scn, pc, cameFrom, verdict>>
 
-Init == scn \in Scn /\ pc = "loads" /\ cameFrom = "none" /\ verdict = "none"
+Init == scn \in {s \in Scn : WellFormed(s)} /\ pc = "loads" /\ cameFrom = "none" /\ verdict = "none"
 
 Reject == verdict' = "reject" /\ pc' = "done" /\ UNCHANGED <<scn, cameFrom>>
 Goto(p) == pc' = p /\ UNCHANGED <<scn, cameFrom, verdict>>
@@ -55,6 +60,7 @@ Loads ==
 \* _validate_destination
 DestOK == CASE scn.dest = "none" -> TRUE
             [] scn.regex -> scn.dest \in {"own", "otherBinding", "patternOnly"}     \* the pattern decides alone
+            [] scn.endpoint = "otherBindingOnly" -> FALSE                           \* no return_addrs: "x not in None" raises
             [] OTHER -> scn.dest = "own"                                            \* return_addrs of this binding
 Destination == pc = "destination" /\ IF DestOK THEN Goto("conditions") ELSE Reject
 
@@ -66,7 +72,7 @@ Conditions ==
        ELSE IF ~scn.allow /\ ~ForMeAny THEN Reject ELSE Goto("subject")
 
 \* get_subject: _bearer_confirmed, verify_recipient; then the tail of _assertion
-RecipOK == ~scn.conv \/ scn.recip \in {"url", "entityid"}
+RecipOK == ~scn.conv \/ scn.recip = "entityid" \/ (scn.recip = "url" /\ scn.endpoint = "configured")
 Subject ==
     /\ pc = "subject"
     /\ LET cf == IF cameFrom = "none" /\ scn.sirt \in Outstanding THEN scn.sirt ELSE cameFrom
@@ -81,14 +87,15 @@ Subject ==
 (* Contract, from the property text                                        *)
 (***************************************************************************)
 AudOK == \A i \in 1..Len(Restr(scn.aud)) : "me" \in Restr(scn.aud)[i]
-DestAllowed == scn.dest \in {"none", "own"} \/ (scn.regex /\ scn.dest \in {"otherBinding", "patternOnly"})
+DestAllowed == scn.dest = "none" \/ (scn.dest = "own" /\ scn.endpoint = "configured")
+               \/ (scn.regex /\ scn.dest \in {"otherBinding", "patternOnly"})
 Solicited == scn.irt \in Outstanding /\ (scn.sirt = "none" \/ scn.sirt = scn.irt)
 MustReject == \/ ~AudOK
               \/ ~DestAllowed
               \/ (scn.conv /\ scn.recip \in {"foreign", "otherBinding"})
               \/ (~scn.allow /\ ~Solicited)
 \* the fully conformant shapes (the property is an "only if"; nothing else is demanded to pass)
-MustAccept == /\ AudOK /\ scn.dest \in {"own", "none"} /\ scn.recip \in {"url"} \cup (IF scn.conv THEN {"entityid"} ELSE {})
+MustAccept == /\ scn.endpoint = "configured" /\ AudOK /\ scn.dest \in {"own", "none"} /\ scn.recip \in {"url"} \cup (IF scn.conv THEN {"entityid"} ELSE {})
               /\ \/ (scn.irt = "id1" /\ scn.sirt = "id1")
                  \/ (scn.allow /\ scn.irt = "none" /\ scn.sirt = "none")
 ExpectedCameFrom == IF scn.irt \in Outstanding THEN scn.irt ELSE "unspecified"
